@@ -889,7 +889,8 @@ impl Property for C06 {
         }
         let n = circ.n;
         let method = *d.pick("method", &[Method::Default, Method::Cats, Method::Bss]);
-        let parallel = if d.coin("par", 1, 2) { Some(d.choose("pd", 4)) } else { None };
+        // --parallel d: mostly shallow, sometimes deeper than any decomposition tree gets
+        let parallel = if d.coin("par", 1, 2) { Some(if d.coin("pd.deep", 1, 8) { *d.pick("pd.big", &[4usize, 5, 7, 10, 64, 1000]) } else { d.choose("pd", 4) }) } else { None };
         let (query, mode) = match sub {
             "malformed" => (Query::DefaultTask, Mode::Malformed(malformed_tail(d, n))),
             "child" => (gen_query(d, n, 4), Mode::ChildStdout),
